@@ -290,6 +290,40 @@ def runCalls (env : Env κ ν δ) (skipEmpty : Bool) :
     let (tables', r) := functionKey env skipEmpty tables c.doc c.name c.arg
     r :: runCalls env skipEmpty tables' cs
 
+/-- `StylesheetExecutionContextDefault::getNodeSetByKey` has two overloads; each hands a node to
+`StylesheetRoot::getNodeSetByKey`, whose document's table is consulted.  `true` = the `context` parameter (the XPath
+context node), `false` = `getCurrentNode()` (the XSLT current node).  Regenerated from the source by
+`translate/c15_execcontext.py`. -/
+structure Overloads where
+  /-- `(XalanNode* context, const XalanQName&, …)` -/
+  qnameUsesContext : Bool
+  /-- `(XalanNode* context, const XalanDOMString& name, …)` -/
+  stringUsesContext : Bool
+deriving Repr, DecidableEq
+
+/-- a `key()` call as a stylesheet makes it: the XPath context node and the XSLT current node may lie in different
+documents (a predicate or later step over another document's nodes); `prefixed` = the lexical key name contains a
+colon -/
+structure XCall (κ δ : Type) where
+  contextDoc : δ
+  currentDoc : δ
+  prefixed : Bool
+  name : κ
+  arg : KeyArg
+
+/-- FunctionKey.cpp `getNodeSet` (a name with a colon goes to the string-name overload, any other through
+`XalanQNameByReference` to the QName overload) followed by the overload's choice of the key node: the document
+whose table answers -/
+def XCall.keyDoc (ov : Overloads) (c : XCall κ δ) : δ :=
+  if (if c.prefixed then ov.stringUsesContext else ov.qnameUsesContext) then c.contextDoc else c.currentDoc
+
+def XCall.toCall (ov : Overloads) (c : XCall κ δ) : Call κ δ := ⟨c.keyDoc ov, c.name, c.arg⟩
+
+/-- a transformation's `key()` calls with their context/current documents -/
+def runXCalls (env : Env κ ν δ) (ov : Overloads) (skipEmpty : Bool) (tables : KeyTables κ ν δ)
+    (calls : List (XCall κ δ)) : List (Option (List ν)) :=
+  runCalls env skipEmpty tables (calls.map (XCall.toCall ov))
+
 end Root
 
 /-! ## specification (XSLT 1.0 §12.2) -/
